@@ -1,10 +1,67 @@
-//! C05 — not built yet.
+//! C05 Fetched manifests never roll back stored data.
+
+use proptest::strategy::Strategy;
 
 use crate::core::*;
+use crate::erpki::*;
+use crate::erun::*;
+use crate::escen::*;
 
-pub const IMPLEMENTED: bool = false;
+fn profile() -> HistProfile {
+    let mut hp = HistProfile::default();
+    hp.base.fault_16 = 0;
+    hp.base.obj_faults = false;
+    hp.base.pp_faults = false;
+    hp.base.max_cas = 4;
+    hp.incomplete_16 = 0;
+    hp.rollback_16 = 7;
+    hp.irregular_16 = 8;
+    hp.fail_module_16 = 1;
+    hp.offline_16 = 1;
+    hp.max_steps = 5;
+    hp
+}
 
-pub fn run(_ctx: &Ctx, _rep: &mut Report, _replay: Option<&serde_json::Value>) {
-    eprintln!("C05: check not implemented");
-    std::process::exit(2);
+/// History contains a step publishing a version that is not strictly newer (number and thisUpdate)
+/// than one published before it.
+fn has_non_increasing_step(sc: &Scenario) -> bool {
+    for (i, ca) in sc.cas.iter().enumerate() {
+        let seq: Vec<usize> = sc.steps.iter().map(|s| s.publish.get(i).copied().unwrap_or(0).min(ca.versions.len().saturating_sub(1))).collect();
+        for w in seq.windows(2) {
+            if ca.versions.is_empty() || w[0] == w[1] {
+                continue;
+            }
+            let (a, b) = (&ca.versions[w[0]], &ca.versions[w[1]]);
+            if !(b.number > a.number && b.this_off > a.this_off) {
+                return true;
+            }
+        }
+    }
+    false
+}
+
+fn prop(sc: &Scenario, info: &mut CaseInfo) -> Verdict {
+    let j = Judge { id: "C05", sound: true, complete: true, store: true, ..Default::default() };
+    let v = judge(&j, sc, info, |_, _| None);
+    info.nontrivial = has_non_increasing_step(sc);
+    for c in history_classes(sc) {
+        info.class(c);
+    }
+    v
+}
+
+pub fn run(ctx: &Ctx, rep: &mut Report, replay: Option<&serde_json::Value>) {
+    rep.rule("E-rpki histories of 2-5 runs of validly signed, complete versions whose (manifestNumber, thisUpdate) pairs are drawn from {increasing, equal number, decreasing number, number up/time down, number down/time up, equal/equal, +1/+1s} with number bases 100, 2^32, 2^63, 2^64-1000, and whose publication order includes replays of earlier versions; oracle: stored manifest and payload after every run are those of the model, which replaces the stored version only if number and thisUpdate are both strictly greater; non-trivial = some step publishes a version not strictly newer than the previously published one; distinct by serialised scenario");
+    rep.assume("reference model Appendix A; manifest numbers above 2^64 are not generated (Serial is 20 bytes; the comparison code path is the same)");
+    ctx.shrink_iters.store(120, std::sync::atomic::Ordering::Relaxed);
+    if let Some(v) = replay {
+        let t: Tagged<Scenario> = serde_json::from_value(v.clone()).expect("replay");
+        run_case(ctx, rep, &t.sub, &t.case, prop);
+        return;
+    }
+    let hp = profile();
+    run_prop_par(ctx, rep, "history", ctx.tier.pick(240, 6000), 8, || genome(260).prop_map({
+        let hp = hp.clone();
+        move |w| history_run(&w, &hp)
+    }), prop);
 }
